@@ -1,1 +1,1193 @@
-fn main() { eprintln!("engine not built yet"); std::process::exit(2); }
+//! C06 — `Modular<M>` is the ring Z/M with canonical representatives and true inverses.
+//!
+//! Form I (small-scope input enumeration), level "exploration".
+//!
+//! * Moduli are const generics, so every modulus is instantiated by macro: every M in 2..=64 and the
+//!   large moduli 998244353, 1000000007, 2^30, 2^30+3, 2^31-19, 2^31-2, 2^31-1.  The real operations of
+//!   each instantiation sit behind a table of fn pointers (`Ops`), the enumerator itself is not generic.
+//! * Small moduli: ALL ordered residue pairs for + - * / and the assigning forms, every residue for
+//!   neg / inv / rendering, `new(v)` for every v in [-3M, 3M] ∪ B, `pow(x, e)` for every x and every
+//!   e in 0..=2M ∪ E.  Large moduli: the same families on the stated residue boundary set.
+//! * Reference: i128 arithmetic (`rem_euclid`), a cycle-detection power for small moduli and an
+//!   MSB-first binary power in u128 for large ones (the code under test is LSB-first).
+//! * thorough adds complete inverse tables (every residue 1..M) for the primes 2^31-1 and 998244353.
+//! * After its own pass the release binary spawns the `dbg` build of itself (release + overflow-checks +
+//!   debug-assertions) with `--dbg-pass`; that child repeats the enumeration, so a wrapped i32 in
+//!   `inv`/`new` panics instead of hiding, and prints one JSON line that the parent merges.
+
+use rayon::prelude::*;
+use rlib_io::{Reader, Writer};
+use rlib_mint::Modular;
+use std::collections::BTreeMap;
+use vcore::*;
+
+// ---------------------------------------------------------------------------------------------
+// the real code, one set of monomorphic entry points per modulus
+
+#[derive(Clone, Copy)]
+struct Ops {
+    m: u32,
+    new: fn(i64) -> u32,
+    bin: fn(u8, u32, u32) -> u32,
+    bin_assign: fn(u8, u32, u32) -> u32,
+    div_mul_back: fn(u32, u32) -> u32,
+    neg: fn(u32) -> u32,
+    inv: fn(u32) -> u32,
+    pow: fn(u32, u64) -> u32,
+    eq: fn(u32, u32) -> (bool, bool),
+    eq_new: fn(i64, i64) -> (bool, bool),
+    display: fn(u32) -> String,
+    debug: fn(u32) -> String,
+    write: fn(u32) -> Vec<u8>,
+    read: fn(&[u8]) -> u32,
+}
+
+/// The only public way to obtain a value with a given residue (fields are private).
+fn mk<const M: u32>(r: u32) -> Modular<M> {
+    Modular::<M>::new(r as i64)
+}
+fn g_new<const M: u32>(v: i64) -> u32 {
+    Modular::<M>::new(v).inner()
+}
+fn g_bin<const M: u32>(op: u8, x: u32, y: u32) -> u32 {
+    let (a, b) = (mk::<M>(x), mk::<M>(y));
+    match op {
+        0 => a + b,
+        1 => a - b,
+        2 => a * b,
+        _ => a / b,
+    }
+    .inner()
+}
+fn g_bin_assign<const M: u32>(op: u8, x: u32, y: u32) -> u32 {
+    let (mut a, b) = (mk::<M>(x), mk::<M>(y));
+    match op {
+        0 => a += b,
+        1 => a -= b,
+        2 => a *= b,
+        _ => a /= b,
+    }
+    a.inner()
+}
+fn g_div_mul_back<const M: u32>(x: u32, y: u32) -> u32 {
+    let (a, b) = (mk::<M>(x), mk::<M>(y));
+    ((a / b) * b).inner()
+}
+fn g_neg<const M: u32>(x: u32) -> u32 {
+    (-mk::<M>(x)).inner()
+}
+fn g_inv<const M: u32>(x: u32) -> u32 {
+    mk::<M>(x).inv().inner()
+}
+fn g_pow<const M: u32>(x: u32, e: u64) -> u32 {
+    mk::<M>(x).pow(e).inner()
+}
+#[allow(clippy::nonminimal_bool)]
+fn g_eq<const M: u32>(x: u32, y: u32) -> (bool, bool) {
+    let (a, b) = (mk::<M>(x), mk::<M>(y));
+    (a == b, a != b)
+}
+fn g_eq_new<const M: u32>(v: i64, w: i64) -> (bool, bool) {
+    let (a, b) = (Modular::<M>::new(v), Modular::<M>::new(w));
+    (a == b, a != b)
+}
+fn g_display<const M: u32>(x: u32) -> String {
+    format!("{}", mk::<M>(x))
+}
+fn g_debug<const M: u32>(x: u32) -> String {
+    format!("{:?}", mk::<M>(x))
+}
+fn g_write<const M: u32>(x: u32) -> Vec<u8> {
+    let mut out: Vec<u8> = Vec::new();
+    {
+        let mut w = Writer::new(Box::new(&mut out));
+        w.write(&mk::<M>(x));
+        // dropping the writer flushes
+    }
+    out
+}
+fn g_read<const M: u32>(bytes: &[u8]) -> u32 {
+    let mut r = Reader::new(Box::new(bytes));
+    let x: Modular<M> = r.read();
+    x.inner()
+}
+
+fn make_ops<const M: u32>() -> Ops {
+    Ops {
+        m: M,
+        new: g_new::<M>,
+        bin: g_bin::<M>,
+        bin_assign: g_bin_assign::<M>,
+        div_mul_back: g_div_mul_back::<M>,
+        neg: g_neg::<M>,
+        inv: g_inv::<M>,
+        pow: g_pow::<M>,
+        eq: g_eq::<M>,
+        eq_new: g_eq_new::<M>,
+        display: g_display::<M>,
+        debug: g_debug::<M>,
+        write: g_write::<M>,
+        read: g_read::<M>,
+    }
+}
+
+macro_rules! moduli {
+    ($($m:literal),* $(,)?) => {
+        /// Every instantiated modulus, ascending (= enumeration order).
+        const MODULI: &[u32] = &[$($m),*];
+        fn ops_for(m: u32) -> Option<Ops> {
+            match m {
+                $($m => Some(make_ops::<$m>()),)*
+                _ => None,
+            }
+        }
+    };
+}
+
+moduli!(
+    2, 3, 4, 5, 6, 7, 8, 9, 10, 11, 12, 13, 14, 15, 16, 17, 18, 19, 20, 21, 22, 23, 24, 25, 26, 27, 28, 29, 30, 31, 32, 33, 34,
+    35, 36, 37, 38, 39, 40, 41, 42, 43, 44, 45, 46, 47, 48, 49, 50, 51, 52, 53, 54, 55, 56, 57, 58, 59, 60, 61, 62, 63, 64,
+    998244353,  // competition prime
+    1000000007, // competition prime
+    1073741824, // 2^30
+    1073741827, // 2^30 + 3
+    2147483629, // 2^31 - 19
+    2147483646, // 2^31 - 2
+    2147483647, // 2^31 - 1
+);
+
+const SMALL_MAX: u32 = 64;
+
+// ---------------------------------------------------------------------------------------------
+// reference arithmetic (i128 / u128, nothing shared with the crate under test)
+
+fn ref_new(v: i64, m: u32) -> u32 {
+    (v as i128).rem_euclid(m as i128) as u32
+}
+fn ref_add(x: u32, y: u32, m: u32) -> u32 {
+    ((x as i128 + y as i128).rem_euclid(m as i128)) as u32
+}
+fn ref_sub(x: u32, y: u32, m: u32) -> u32 {
+    ((x as i128 - y as i128).rem_euclid(m as i128)) as u32
+}
+fn ref_mul(x: u32, y: u32, m: u32) -> u32 {
+    ((x as i128 * y as i128).rem_euclid(m as i128)) as u32
+}
+fn ref_neg(x: u32, m: u32) -> u32 {
+    ((-(x as i128)).rem_euclid(m as i128)) as u32
+}
+fn ref_gcd(a: u32, b: u32) -> u32 {
+    let (mut a, mut b) = (a as u64, b as u64);
+    while b != 0 {
+        let t = a % b;
+        a = b;
+        b = t;
+    }
+    a as u32
+}
+/// x^e mod m by walking the sequence 1, x, x², … until it repeats (pre-period μ, period λ) and indexing
+/// into the cycle.  No squaring anywhere; usable for small m only.
+fn ref_pow_cycle(x: u32, e: u64, m: u32) -> u32 {
+    let mut seq: Vec<u32> = vec![];
+    let mut seen = vec![usize::MAX; m as usize];
+    let mut cur = 1 % m;
+    let (mu, lam) = loop {
+        if seen[cur as usize] != usize::MAX {
+            let mu = seen[cur as usize];
+            break (mu, seq.len() - mu);
+        }
+        seen[cur as usize] = seq.len();
+        seq.push(cur);
+        cur = ((cur as u64 * x as u64) % m as u64) as u32;
+    };
+    if e < seq.len() as u64 {
+        seq[e as usize]
+    } else {
+        seq[mu + ((e - mu as u64) % lam as u64) as usize]
+    }
+}
+/// x^e mod m, left-to-right binary method in u128 (the crate under test goes right-to-left).
+fn ref_pow_binary(x: u32, e: u64, m: u32) -> u32 {
+    let mm = m as u128;
+    let mut r: u128 = 1 % mm;
+    for bit in (0..64).rev() {
+        r = r * r % mm;
+        if (e >> bit) & 1 == 1 {
+            r = r * (x as u128) % mm;
+        }
+    }
+    r as u32
+}
+fn ref_pow(x: u32, e: u64, m: u32) -> u32 {
+    if m <= 4096 {
+        ref_pow_cycle(x, e, m)
+    } else {
+        ref_pow_binary(x, e, m)
+    }
+}
+fn phi(m: u32) -> u32 {
+    let (mut n, mut r, mut p) = (m, m, 2u32);
+    while p * p <= n {
+        if n % p == 0 {
+            while n % p == 0 {
+                n /= p;
+            }
+            r -= r / p;
+        }
+        p += 1;
+    }
+    if n > 1 {
+        r -= r / n;
+    }
+    r
+}
+fn is_prime(m: u32) -> bool {
+    if m < 2 {
+        return false;
+    }
+    let mut p = 2u64;
+    while p * p <= m as u64 {
+        if m as u64 % p == 0 {
+            return false;
+        }
+        p += 1;
+    }
+    true
+}
+fn isqrt(m: u32) -> u32 {
+    let mut r = (m as f64).sqrt() as u64;
+    while r * r > m as u64 {
+        r -= 1;
+    }
+    while (r + 1) * (r + 1) <= m as u64 {
+        r += 1;
+    }
+    r as u32
+}
+
+// ---------------------------------------------------------------------------------------------
+// the enumerated sets
+
+/// Residues used as operands: all of them for a small modulus, the boundary set for a large one.
+fn residues(m: u32) -> Vec<u32> {
+    if m <= SMALL_MAX {
+        return (0..m).collect();
+    }
+    let mm = m as i128;
+    let s = isqrt(m) as i128;
+    let mut v: Vec<i128> = vec![0, 1, 2, 3, mm / 2, (mm + 1) / 2, mm / 2 - 1, (mm + 1) / 2 + 1, mm - 3, mm - 2, mm - 1];
+    v.extend([(1 << 15) - 1, 1 << 15, (1 << 15) + 1, (1 << 16) - 1, 1 << 16, (1 << 16) + 1, 46340, 46341, s - 1, s, s + 1]);
+    let mut out: Vec<u32> = v.into_iter().filter(|&r| r >= 0 && r < mm).map(|r| r as u32).collect();
+    out.sort();
+    out.dedup();
+    out
+}
+
+/// Constructor arguments: [-3M, 3M] (small) or r + kM for boundary residues r, |k| <= 3 (large), plus B.
+fn new_values(m: u32, res: &[u32]) -> Vec<i64> {
+    let mm = m as i128;
+    let mut v: Vec<i128> = vec![];
+    if m <= SMALL_MAX {
+        v.extend(-3 * mm..=3 * mm);
+    } else {
+        for &r in res {
+            for k in -3..=3i128 {
+                v.push(r as i128 + k * mm);
+            }
+        }
+    }
+    let p31: i128 = 1 << 31;
+    let p32: i128 = 1 << 32;
+    let p62: i128 = 1 << 62;
+    let top = (i64::MAX as i128 / mm) * mm; // largest multiple of M that is an i64
+    let b: Vec<i128> = vec![
+        0,
+        1,
+        mm,
+        mm - 1,
+        mm + 1,
+        p31,
+        p31 - 1,
+        p31 + 1,
+        p32,
+        p32 - 1,
+        p32 + 1,
+        p62,
+        p62 - 1,
+        p62 + 1,
+        mm * mm,
+        mm * mm - 1,
+        mm * (mm - 1),
+        (mm - 1) * (mm - 1),
+        top,
+        top - 1,
+        top + 1,
+        i64::MAX as i128,
+        i64::MAX as i128 - 1,
+    ];
+    for x in b {
+        v.push(x);
+        v.push(-x);
+    }
+    v.push(i64::MIN as i128);
+    v.push(i64::MIN as i128 + 1);
+    let mut out: Vec<i64> = v.into_iter().filter(|&x| x >= i64::MIN as i128 && x <= i64::MAX as i128).map(|x| x as i64).collect();
+    // simplest first: by magnitude, positive before negative
+    out.sort_by_key(|&x| (x.unsigned_abs(), x < 0));
+    out.dedup();
+    out
+}
+
+/// Exponents: 0..=2M (small moduli) ∪ E.
+fn exponents(m: u32) -> Vec<u64> {
+    let mm = m as u64;
+    let mut v: Vec<u64> = vec![0, 1, 2, 3, mm - 2, mm - 1, mm, mm + 1, 2 * mm];
+    v.extend([(1 << 31) - 1, 1 << 31, (1 << 31) + 1, (1 << 32) - 1, 1 << 32, (1 << 32) + 1]);
+    v.extend([(1 << 63) - 1, 1 << 63, (1 << 63) + 1, u64::MAX - 1, u64::MAX]);
+    if m <= SMALL_MAX {
+        v.extend(0..=2 * mm);
+    }
+    v.sort();
+    v.dedup();
+    v
+}
+
+// ---------------------------------------------------------------------------------------------
+// one case = one family + its arguments; `check_case` executes the real code once and compares
+
+#[derive(Clone, Copy, PartialEq, Eq, PartialOrd, Ord, Debug)]
+enum Fam {
+    New,
+    Read,
+    EqNew,
+    Eq,
+    Add,
+    AddAssign,
+    Sub,
+    SubAssign,
+    Mul,
+    MulAssign,
+    Div,
+    DivAssign,
+    Neg,
+    Inv,
+    Pow,
+    Display,
+    Debug,
+    Write,
+}
+
+const ALL_FAMS: [Fam; 18] = [
+    Fam::New,
+    Fam::Read,
+    Fam::EqNew,
+    Fam::Eq,
+    Fam::Add,
+    Fam::AddAssign,
+    Fam::Sub,
+    Fam::SubAssign,
+    Fam::Mul,
+    Fam::MulAssign,
+    Fam::Div,
+    Fam::DivAssign,
+    Fam::Neg,
+    Fam::Inv,
+    Fam::Pow,
+    Fam::Display,
+    Fam::Debug,
+    Fam::Write,
+];
+
+impl Fam {
+    fn name(self) -> &'static str {
+        match self {
+            Fam::New => "new",
+            Fam::Read => "read",
+            Fam::EqNew => "eq_new",
+            Fam::Eq => "eq",
+            Fam::Add => "add",
+            Fam::AddAssign => "add_assign",
+            Fam::Sub => "sub",
+            Fam::SubAssign => "sub_assign",
+            Fam::Mul => "mul",
+            Fam::MulAssign => "mul_assign",
+            Fam::Div => "div",
+            Fam::DivAssign => "div_assign",
+            Fam::Neg => "neg",
+            Fam::Inv => "inv",
+            Fam::Pow => "pow",
+            Fam::Display => "display",
+            Fam::Debug => "debug",
+            Fam::Write => "write",
+        }
+    }
+    fn from_name(s: &str) -> Option<Fam> {
+        ALL_FAMS.iter().copied().find(|f| f.name() == s)
+    }
+}
+
+#[derive(Clone, Copy, Debug)]
+struct Case {
+    fam: Fam,
+    m: u32,
+    x: u32,
+    y: u32,
+    v: i64,
+    e: u64,
+}
+
+impl Case {
+    fn new(fam: Fam, m: u32) -> Case {
+        Case { fam, m, x: 0, y: 0, v: 0, e: 0 }
+    }
+    /// Compact, deterministic rendering of the input (part of the violation signature).
+    fn args(&self) -> String {
+        match self.fam {
+            Fam::New | Fam::Read | Fam::EqNew => format!("M={},v={}", self.m, self.v),
+            Fam::Neg | Fam::Inv | Fam::Display | Fam::Debug | Fam::Write => format!("M={},x={}", self.m, self.x),
+            Fam::Pow => format!("M={},x={},e={}", self.m, self.x, self.e),
+            _ => format!("M={},x={},y={}", self.m, self.x, self.y),
+        }
+    }
+    fn to_json(&self, profile: &str) -> Value {
+        json!({"family": self.fam.name(), "m": self.m, "x": self.x, "y": self.y, "v": self.v, "e": self.e, "profile": profile})
+    }
+    fn from_json(v: &Value) -> Option<Case> {
+        Some(Case {
+            fam: Fam::from_name(v["family"].as_str()?)?,
+            m: v["m"].as_u64()? as u32,
+            x: v["x"].as_u64()? as u32,
+            y: v["y"].as_u64()? as u32,
+            v: v["v"].as_i64()?,
+            e: v["e"].as_u64()?,
+        })
+    }
+}
+
+enum Outcome {
+    /// executed and agreed with the reference
+    Ok { nontrivial: bool, observed: u64 },
+    /// not executed: the input lies outside the property's domain (divisor / inverse of a non-unit)
+    SkipOutOfDomain,
+    /// not executed: `new(r)` does not give residue r, so the operand cannot be built (reported under `new`)
+    SkipUnconstructible,
+    Fail { label: String, summary: String },
+}
+
+fn guard<T>(fam: Fam, what: &str, f: impl FnOnce() -> T) -> Result<T, Outcome> {
+    catch(f).map_err(|p| {
+        let kind = if p.contains("overflow") { "overflow_panic" } else { "panic" };
+        Outcome::Fail { label: format!("{kind}_{}", fam.name()), summary: format!("{what} panicked: {p}") }
+    })
+}
+
+macro_rules! tri {
+    ($e:expr) => {
+        match $e {
+            Ok(v) => v,
+            Err(o) => return o,
+        }
+    };
+}
+
+fn operand(ops: &Ops, r: u32) -> Result<(), Outcome> {
+    match catch(|| (ops.new)(r as i64)) {
+        Ok(g) if g == r => Ok(()),
+        _ => Err(Outcome::SkipUnconstructible),
+    }
+}
+
+fn fail(c: &Case, summary: String) -> Outcome {
+    Outcome::Fail { label: c.fam.name().to_string(), summary }
+}
+
+/// Execute ONE case on the real code and compare it with the reference.
+fn check_case(ops: &Ops, c: &Case) -> Outcome {
+    let m = ops.m;
+    let (x, y) = (c.x, c.y);
+    let t = format!("Modular<{m}>");
+    match c.fam {
+        Fam::New => {
+            let want = ref_new(c.v, m);
+            let got = tri!(guard(c.fam, &format!("{t}::new({})", c.v), || (ops.new)(c.v)));
+            if got != want {
+                return fail(c, format!("{t}::new({}).inner() = {got}; the representative of {} modulo {m} in [0,{m}) is {want}", c.v, c.v));
+            }
+            Outcome::Ok { nontrivial: c.v < 0 || c.v >= m as i64, observed: got as u64 }
+        }
+        Fam::Read => {
+            let want = ref_new(c.v, m);
+            let token = format!("{}\n", c.v).into_bytes();
+            let got = tri!(guard(c.fam, &format!("reading a {t} from the token \"{}\"", c.v), || (ops.read)(&token)));
+            if got != want {
+                return fail(c, format!("reading a {t} from the token \"{}\" gave inner() = {got}; new of that integer must be {want}", c.v));
+            }
+            Outcome::Ok { nontrivial: c.v < 0 || c.v >= m as i64, observed: got as u64 }
+        }
+        Fam::EqNew => {
+            let r = ref_new(c.v, m);
+            let other = (r + 1) % m;
+            let (eq, ne) = tri!(guard(c.fam, &format!("{t}::new({}) == {t}::new({r})", c.v), || (ops.eq_new)(c.v, r as i64)));
+            if !eq || ne {
+                return fail(c, format!("{t}::new({}) and {t}::new({r}) denote the same class but == gave {eq}, != gave {ne}", c.v));
+            }
+            let (eq2, ne2) = tri!(guard(c.fam, &format!("{t}::new({}) == {t}::new({other})", c.v), || (ops.eq_new)(c.v, other as i64)));
+            if eq2 || !ne2 {
+                return fail(c, format!("{t}::new({}) and {t}::new({other}) denote different classes but == gave {eq2}, != gave {ne2}", c.v));
+            }
+            Outcome::Ok { nontrivial: c.v < 0 || c.v >= m as i64, observed: 1 }
+        }
+        Fam::Eq => {
+            tri!(operand(ops, x));
+            tri!(operand(ops, y));
+            let (eq, ne) = tri!(guard(c.fam, &format!("{t}: {x} == {y}"), || (ops.eq)(x, y)));
+            if eq != (x == y) || ne != (x != y) {
+                return fail(c, format!("{t}: residues {x} and {y}: == gave {eq}, != gave {ne}"));
+            }
+            Outcome::Ok { nontrivial: false, observed: eq as u64 }
+        }
+        Fam::Add | Fam::AddAssign | Fam::Sub | Fam::SubAssign | Fam::Mul | Fam::MulAssign => {
+            tri!(operand(ops, x));
+            tri!(operand(ops, y));
+            let (op, sym, assign, want, nontrivial) = match c.fam {
+                Fam::Add => (0u8, "+", false, ref_add(x, y, m), x as u64 + y as u64 >= m as u64),
+                Fam::AddAssign => (0, "+=", true, ref_add(x, y, m), x as u64 + y as u64 >= m as u64),
+                Fam::Sub => (1, "-", false, ref_sub(x, y, m), x < y),
+                Fam::SubAssign => (1, "-=", true, ref_sub(x, y, m), x < y),
+                Fam::Mul => (2, "*", false, ref_mul(x, y, m), x as u64 * y as u64 >= m as u64),
+                _ => (2, "*=", true, ref_mul(x, y, m), x as u64 * y as u64 >= m as u64),
+            };
+            let f = if assign { ops.bin_assign } else { ops.bin };
+            let got = tri!(guard(c.fam, &format!("{t}: {x} {sym} {y}"), || f(op, x, y)));
+            if got != want {
+                return fail(c, format!("{t}: {x} {sym} {y} gave {got}; the representative of the integer result modulo {m} is {want}"));
+            }
+            Outcome::Ok { nontrivial, observed: got as u64 }
+        }
+        Fam::Div | Fam::DivAssign => {
+            if ref_gcd(y, m) != 1 {
+                return Outcome::SkipOutOfDomain;
+            }
+            tri!(operand(ops, x));
+            tri!(operand(ops, y));
+            let assign = c.fam == Fam::DivAssign;
+            let sym = if assign { "/=" } else { "/" };
+            let f = if assign { ops.bin_assign } else { ops.bin };
+            let q = tri!(guard(c.fam, &format!("{t}: {x} {sym} {y}"), || f(3, x, y)));
+            let back = ((q as u128 * y as u128) % m as u128) as u32;
+            if q >= m || back != x {
+                return fail(c, format!("{t}: {x} {sym} {y} gave q = {q}; q must lie in [0,{m}) and q*{y} mod {m} must be {x}, it is {back}"));
+            }
+            if !assign {
+                let b2 = tri!(guard(c.fam, &format!("{t}: ({x} / {y}) * {y}"), || (ops.div_mul_back)(x, y)));
+                if b2 != x {
+                    return fail(c, format!("{t}: ({x} / {y}) * {y} gave {b2}, expected {x} ({y} is coprime to {m})"));
+                }
+            }
+            Outcome::Ok { nontrivial: y > 1 && x != 0, observed: q as u64 }
+        }
+        Fam::Neg => {
+            tri!(operand(ops, x));
+            let want = ref_neg(x, m);
+            let got = tri!(guard(c.fam, &format!("{t}: -{x}"), || (ops.neg)(x)));
+            if got != want {
+                return fail(c, format!("{t}: -({x}) gave {got}; the representative of -{x} modulo {m} is {want}"));
+            }
+            Outcome::Ok { nontrivial: x != 0, observed: got as u64 }
+        }
+        Fam::Inv => {
+            if ref_gcd(x, m) != 1 {
+                return Outcome::SkipOutOfDomain;
+            }
+            tri!(operand(ops, x));
+            let i = tri!(guard(c.fam, &format!("{t}: inv({x})"), || (ops.inv)(x)));
+            let prod = ((i as u128 * x as u128) % m as u128) as u32;
+            if i >= m || prod != 1 {
+                return fail(c, format!("{t}: inv({x}) gave {i}; it must lie in [0,{m}) and {x}*inv mod {m} must be 1, it is {prod}"));
+            }
+            Outcome::Ok { nontrivial: x > 1, observed: i as u64 }
+        }
+        Fam::Pow => {
+            tri!(operand(ops, x));
+            let want = ref_pow(x, c.e, m);
+            let got = tri!(guard(c.fam, &format!("{t}: pow({x}, {})", c.e), || (ops.pow)(x, c.e)));
+            if got != want {
+                return fail(c, format!("{t}: {x}.pow({}) gave {got}; {x}^{} modulo {m} is {want}", c.e, c.e));
+            }
+            Outcome::Ok { nontrivial: x >= 2 && c.e >= 2, observed: got as u64 }
+        }
+        Fam::Display | Fam::Debug => {
+            tri!(operand(ops, x));
+            let (f, which) = if c.fam == Fam::Display { (ops.display, "Display") } else { (ops.debug, "Debug") };
+            let got = tri!(guard(c.fam, &format!("{t}: {which} of residue {x}"), || f(x)));
+            if got != x.to_string() {
+                return fail(c, format!("{t}: {which} of the value with representative {x} printed \"{got}\""));
+            }
+            Outcome::Ok { nontrivial: x >= 10, observed: x as u64 }
+        }
+        Fam::Write => {
+            tri!(operand(ops, x));
+            let got = tri!(guard(c.fam, &format!("{t}: Writer::write of residue {x}"), || (ops.write)(x)));
+            if got != x.to_string().into_bytes() {
+                return fail(c, format!("{t}: writing the value with representative {x} produced the bytes \"{}\"", String::from_utf8_lossy(&got)));
+            }
+            Outcome::Ok { nontrivial: x >= 10, observed: x as u64 }
+        }
+    }
+}
+
+// ---------------------------------------------------------------------------------------------
+// enumeration of one modulus
+
+#[derive(Default)]
+struct Report {
+    evaluations: u64,
+    per_family: BTreeMap<String, u64>,
+    nontrivial: BTreeMap<String, u64>,
+    skipped_out_of_domain: u64,
+    skipped_unconstructible: u64,
+    /// executed cases with a named shape (non-vacuity facts)
+    flags: BTreeMap<String, u64>,
+    /// label -> (first failing case in enumeration order, summary, number of failing cases)
+    fails: BTreeMap<String, (Case, String, u64)>,
+    /// (modulus, family) -> first non-trivial agreeing case
+    samples: Vec<Value>,
+    /// per modulus: (M, evaluations, units whose inverse was checked)
+    per_modulus: Vec<(u32, u64, u64)>,
+}
+
+impl Report {
+    fn bump(map: &mut BTreeMap<String, u64>, k: &str, n: u64) {
+        *map.entry(k.to_string()).or_insert(0) += n;
+    }
+
+    fn visit(&mut self, ops: &Ops, c: Case, have_sample: &mut [bool; 18]) {
+        match check_case(ops, &c) {
+            Outcome::SkipOutOfDomain => {
+                self.skipped_out_of_domain += 1;
+                return;
+            }
+            Outcome::SkipUnconstructible => {
+                self.skipped_unconstructible += 1;
+                return;
+            }
+            Outcome::Ok { nontrivial, observed } => {
+                if nontrivial {
+                    Self::bump(&mut self.nontrivial, c.fam.name(), 1);
+                    let idx = ALL_FAMS.iter().position(|f| *f == c.fam).unwrap();
+                    if !have_sample[idx] {
+                        have_sample[idx] = true;
+                        self.samples.push(json!({"family": c.fam.name(), "case": c.args(), "observed": observed, "agrees_with_reference": true}));
+                    }
+                }
+            }
+            Outcome::Fail { label, summary } => {
+                let e = self.fails.entry(label).or_insert((c, summary, 0));
+                e.2 += 1;
+            }
+        }
+        self.evaluations += 1;
+        Self::bump(&mut self.per_family, c.fam.name(), 1);
+        let m = c.m as u64;
+        let flag = match c.fam {
+            Fam::Add if c.x as u64 + c.y as u64 == m => Some("add_sum_exactly_M"),
+            Fam::Sub if c.x == c.y => Some("sub_equal_operands"),
+            Fam::Neg if c.x == 0 => Some("neg_of_zero"),
+            Fam::New if c.v == i64::MIN => Some("new_i64_min"),
+            Fam::New if c.v == i64::MAX => Some("new_i64_max"),
+            Fam::New if c.v >= (1 << 31) && c.v < (1 << 33) => Some("new_just_above_i32"),
+            Fam::Read if c.v == i64::MIN => Some("read_i64_min"),
+            Fam::Pow if c.e == u64::MAX => Some("pow_u64_max"),
+            Fam::Mul if c.x as u64 * c.y as u64 >= 1 << 61 => Some("mul_product_at_least_2^61"),
+            Fam::Inv if c.x as u64 == m - 1 && m > (1 << 30) => Some("inv_of_M-1_near_2^31"),
+            _ => None,
+        };
+        if let Some(f) = flag {
+            Self::bump(&mut self.flags, f, 1);
+        }
+    }
+
+    fn merge(&mut self, o: Report) {
+        self.evaluations += o.evaluations;
+        for (k, v) in o.per_family {
+            Self::bump(&mut self.per_family, &k, v);
+        }
+        for (k, v) in o.nontrivial {
+            Self::bump(&mut self.nontrivial, &k, v);
+        }
+        for (k, v) in o.flags {
+            Self::bump(&mut self.flags, &k, v);
+        }
+        self.skipped_out_of_domain += o.skipped_out_of_domain;
+        self.skipped_unconstructible += o.skipped_unconstructible;
+        for (k, (c, s, n)) in o.fails {
+            // moduli are merged in ascending order, so the entry already present is the earlier one
+            match self.fails.get_mut(&k) {
+                Some(e) => e.2 += n,
+                None => {
+                    self.fails.insert(k, (c, s, n));
+                }
+            }
+        }
+        self.samples.extend(o.samples);
+        self.per_modulus.extend(o.per_modulus);
+    }
+
+    fn distinct_nontrivial(&self) -> u64 {
+        self.nontrivial.values().sum()
+    }
+}
+
+fn enumerate_modulus(ops: &Ops) -> Report {
+    let m = ops.m;
+    let mut rep = Report::default();
+    let mut hs = [false; 18];
+    let res = residues(m);
+    let vals = new_values(m, &res);
+    let exps = exponents(m);
+    for &v in &vals {
+        for fam in [Fam::New, Fam::Read, Fam::EqNew] {
+            rep.visit(ops, Case { v, ..Case::new(fam, m) }, &mut hs);
+        }
+    }
+    for &x in &res {
+        for fam in [Fam::Neg, Fam::Inv, Fam::Display, Fam::Debug, Fam::Write] {
+            rep.visit(ops, Case { x, ..Case::new(fam, m) }, &mut hs);
+        }
+    }
+    for &x in &res {
+        for &y in &res {
+            for fam in [Fam::Eq, Fam::Add, Fam::AddAssign, Fam::Sub, Fam::SubAssign, Fam::Mul, Fam::MulAssign, Fam::Div, Fam::DivAssign] {
+                rep.visit(ops, Case { x, y, ..Case::new(fam, m) }, &mut hs);
+            }
+        }
+    }
+    for &x in &res {
+        for &e in &exps {
+            rep.visit(ops, Case { x, e, ..Case::new(Fam::Pow, m) }, &mut hs);
+        }
+    }
+    let units = *rep.per_family.get("inv").unwrap_or(&0);
+    for s in rep.samples.iter_mut() {
+        s["M"] = json!(m);
+    }
+    rep.per_modulus.push((m, rep.evaluations, units));
+    rep
+}
+
+/// The whole enumeration (identical in both tiers and in both build profiles).
+fn enumerate_all() -> Report {
+    let parts: Vec<Report> = MODULI.par_iter().map(|&m| enumerate_modulus(&ops_for(m).unwrap())).collect();
+    let mut total = Report::default();
+    for p in parts {
+        total.merge(p); // ascending modulus order
+    }
+    total
+}
+
+/// Facts that prove the interesting paths ran; Err = the harness did not explore what it claims.
+fn non_vacuity(r: &Report) -> Result<(), String> {
+    for f in [
+        "add_sum_exactly_M",
+        "sub_equal_operands",
+        "neg_of_zero",
+        "new_i64_min",
+        "new_i64_max",
+        "new_just_above_i32",
+        "read_i64_min",
+        "pow_u64_max",
+        "mul_product_at_least_2^61",
+        "inv_of_M-1_near_2^31",
+    ] {
+        if r.flags.get(f).copied().unwrap_or(0) == 0 && r.fails.is_empty() {
+            return Err(format!("no executed case of shape {f}"));
+        }
+    }
+    if r.per_modulus.len() != MODULI.len() {
+        return Err("not every modulus was enumerated".into());
+    }
+    if r.fails.is_empty() && r.skipped_unconstructible == 0 {
+        for &(m, _, units) in &r.per_modulus {
+            if m <= SMALL_MAX && units != phi(m) as u64 {
+                return Err(format!("modulus {m}: {units} inverses checked, phi({m}) = {}", phi(m)));
+            }
+        }
+        for fam in ALL_FAMS {
+            if r.per_family.get(fam.name()).copied().unwrap_or(0) == 0 {
+                return Err(format!("family {} was never evaluated", fam.name()));
+            }
+            if fam != Fam::Eq && r.nontrivial.get(fam.name()).copied().unwrap_or(0) == 0 {
+                return Err(format!("family {} has no non-trivial case", fam.name()));
+            }
+        }
+    }
+    Ok(())
+}
+
+/// The two reference powers must agree with each other and with plain repeated multiplication.
+fn reference_self_check() -> Result<(), String> {
+    for m in 2..=SMALL_MAX {
+        for x in 0..m {
+            let mut naive = 1 % m;
+            for e in 0..=(2 * m as u64 + 3) {
+                let (a, b) = (ref_pow_cycle(x, e, m), ref_pow_binary(x, e, m));
+                if a != naive || b != naive {
+                    return Err(format!("reference powers disagree: {x}^{e} mod {m}: naive {naive}, cycle {a}, binary {b}"));
+                }
+                naive = ((naive as u64 * x as u64) % m as u64) as u32;
+            }
+            for e in exponents(m) {
+                if ref_pow_cycle(x, e, m) != ref_pow_binary(x, e, m) {
+                    return Err(format!("reference powers disagree: {x}^{e} mod {m}"));
+                }
+            }
+        }
+    }
+    if phi(12) != 4 || phi(64) != 32 || phi(61) != 60 || ref_new(i64::MIN, 7) != 6 /* 2^63 = 8^21 = 1 mod 7 */ || ref_new(-1, 2147483647) != 2147483646 {
+        return Err("reference phi / rem_euclid self-test failed".into());
+    }
+    Ok(())
+}
+
+// ---------------------------------------------------------------------------------------------
+// thorough: complete inverse tables
+
+struct TableResult {
+    m: u32,
+    lo: u32,
+    hi: u32, // exclusive
+    checked: u64,
+    not_self_inverse: u64,
+    sum_inverses: u128,
+    first_fail: Option<(u32, String)>,
+}
+
+const TABLE_CHUNK: u32 = 1 << 22;
+
+fn table_one<const M: u32>(x: u32) -> Result<u32, String> {
+    let a = Modular::<M>::new(x as i64);
+    if a.inner() != x {
+        return Err(format!("Modular<{M}>::new({x}).inner() = {}", a.inner()));
+    }
+    let i = a.inv().inner();
+    let prod = (i as u64 * x as u64) % M as u64;
+    if i >= M || prod != 1 {
+        return Err(format!("Modular<{M}>: inv({x}) gave {i}; it must lie in [0,{M}) and {x}*inv mod {M} must be 1, it is {prod}"));
+    }
+    Ok(i)
+}
+
+/// x * inv(x) == 1 for every x in [lo, hi) of the PRIME modulus M (every such x is a unit).
+fn inverse_table<const M: u32>(lo: u32, hi: u32) -> TableResult {
+    let nchunks = (hi - lo).div_ceil(TABLE_CHUNK);
+    let parts: Vec<(u64, u64, u128, Option<(u32, String)>)> = (0..nchunks)
+        .into_par_iter()
+        .map(|c| {
+            let a = lo + c * TABLE_CHUNK;
+            let b = (a as u64 + TABLE_CHUNK as u64).min(hi as u64) as u32;
+            let fast = catch(|| {
+                let (mut n, mut nsi, mut sum) = (0u64, 0u64, 0u128);
+                for x in a..b {
+                    match table_one::<M>(x) {
+                        Ok(i) => {
+                            n += 1;
+                            nsi += (i != x) as u64;
+                            sum += i as u128;
+                        }
+                        Err(s) => return (n, nsi, sum, Some((x, s))),
+                    }
+                }
+                (n, nsi, sum, None)
+            });
+            match fast {
+                Ok(r) => r,
+                Err(_) => {
+                    // something panicked inside the chunk: find the first such x one element at a time
+                    let (mut n, mut nsi, mut sum) = (0u64, 0u64, 0u128);
+                    for x in a..b {
+                        match catch(|| table_one::<M>(x)) {
+                            Ok(Ok(i)) => {
+                                n += 1;
+                                nsi += (i != x) as u64;
+                                sum += i as u128;
+                            }
+                            Ok(Err(s)) => return (n, nsi, sum, Some((x, s))),
+                            Err(p) => return (n, nsi, sum, Some((x, format!("Modular<{M}>: inv({x}) panicked: {p}")))),
+                        }
+                    }
+                    (n, nsi, sum, None)
+                }
+            }
+        })
+        .collect();
+    let mut t = TableResult { m: M, lo, hi, checked: 0, not_self_inverse: 0, sum_inverses: 0, first_fail: None };
+    for (n, nsi, sum, f) in parts {
+        t.checked += n;
+        t.not_self_inverse += nsi;
+        t.sum_inverses += sum;
+        if t.first_fail.is_none() {
+            t.first_fail = f; // chunks are in ascending order
+        }
+    }
+    t
+}
+
+// ---------------------------------------------------------------------------------------------
+// the second build profile (overflow checks + debug assertions)
+
+/// True iff THIS binary was compiled with integer overflow checks.
+fn overflow_checks_active() -> bool {
+    catch(|| {
+        let a: i32 = std::hint::black_box(i32::MAX);
+        let b: i32 = std::hint::black_box(1);
+        std::hint::black_box(a + b)
+    })
+    .is_err()
+}
+
+fn dbg_binary() -> Result<std::path::PathBuf, String> {
+    let exe = std::env::current_exe().map_err(|e| format!("current_exe: {e}"))?;
+    let comps: Vec<_> = exe.components().collect();
+    let pos = comps.iter().rposition(|c| c.as_os_str() == "release").ok_or_else(|| format!("{} has no `release` path component", exe.display()))?;
+    let mut p = std::path::PathBuf::new();
+    for (i, c) in comps.iter().enumerate() {
+        if i == pos {
+            p.push("dbg");
+        } else {
+            p.push(c.as_os_str());
+        }
+    }
+    if !p.is_file() {
+        return Err(format!("the overflow-checking build {} does not exist (cargo build --offline --profile dbg -p eng_mint)", p.display()));
+    }
+    Ok(p)
+}
+
+fn violations_json(r: &Report, profile: &str) -> Vec<Value> {
+    r.fails
+        .iter()
+        .map(|(label, (c, summary, n))| {
+            json!({
+                "signature": format!("{label}:{}", c.args()),
+                "summary": format!("{summary} [first of {n} failing case(s) of family {label}; build profile {profile}]"),
+                "replay": c.to_json(profile),
+            })
+        })
+        .collect()
+}
+
+/// Child mode: same enumeration, one JSON line, no evidence.
+fn dbg_pass_child() -> ! {
+    let r = enumerate_all();
+    let vac = non_vacuity(&r).err();
+    let out = json!({
+        "profile": if cfg!(debug_assertions) { "dbg" } else { "release" },
+        "debug_assertions": cfg!(debug_assertions),
+        "overflow_checks_active": overflow_checks_active(),
+        "evaluations": r.evaluations,
+        "distinct_nontrivial": r.distinct_nontrivial(),
+        "per_family_evaluations": r.per_family,
+        "skipped_out_of_domain": r.skipped_out_of_domain,
+        "skipped_operand_unconstructible": r.skipped_unconstructible,
+        "non_vacuity_failure": vac,
+        "violations": violations_json(&r, "dbg"),
+    });
+    println!("{out}");
+    std::process::exit(0)
+}
+
+/// Child mode: plain re-execution of one case in this build profile; one JSON line.
+fn dbg_confirm_child(arg: &str) -> ! {
+    let v: Value = serde_json::from_str(arg).unwrap_or(Value::Null);
+    let r = confirm_here(&v);
+    println!("{}", json!({"overflow_checks_active": overflow_checks_active(), "err": r.err()}));
+    std::process::exit(0)
+}
+
+fn confirm_here(v: &Value) -> Result<(), String> {
+    let c = Case::from_json(v).ok_or_else(|| format!("malformed replay value {v}"))?;
+    let ops = ops_for(c.m).ok_or_else(|| format!("modulus {} is not instantiated in this engine", c.m))?;
+    match check_case(&ops, &c) {
+        Outcome::Fail { label, summary } => Err(format!("{label}:{} — {summary}", c.args())),
+        _ => Ok(()),
+    }
+}
+
+/// A replay that needs the overflow-checking build cannot be decided without it: exit 2, never a verdict.
+fn confirm_machinery_failure(msg: &str) -> ! {
+    println!("MACHINERY-FAILURE property=C06 engine=mint {msg}");
+    eprintln!("MACHINERY-FAILURE property=C06 engine=mint {msg}");
+    std::process::exit(2)
+}
+
+/// Plain re-execution of one recorded case, in the build profile it was found in.
+fn confirm(v: &Value) -> Result<(), String> {
+    if v["profile"] == "dbg" && !cfg!(debug_assertions) {
+        let bin = dbg_binary().unwrap_or_else(|e| confirm_machinery_failure(&e));
+        let out = std::process::Command::new(&bin)
+            .args(["C06", "quick", "--dbg-confirm", &v.to_string()])
+            .output()
+            .unwrap_or_else(|e| confirm_machinery_failure(&format!("cannot run {}: {e}", bin.display())));
+        let line = String::from_utf8_lossy(&out.stdout);
+        let r: Value = serde_json::from_str(line.trim()).unwrap_or_else(|e| confirm_machinery_failure(&format!("unreadable answer of {}: {e}", bin.display())));
+        if r["overflow_checks_active"] != true {
+            confirm_machinery_failure(&format!("{} was not built with overflow checks", bin.display()));
+        }
+        return match r["err"].as_str() {
+            Some(s) => Err(s.to_string()),
+            None => Ok(()),
+        };
+    }
+    confirm_here(v)
+}
+
+// ---------------------------------------------------------------------------------------------
+
+fn main() {
+    let args = Args::parse();
+    quiet_panics();
+    match args.extra.first().map(|s| s.as_str()) {
+        Some("--dbg-pass") => dbg_pass_child(),
+        Some("--dbg-confirm") => dbg_confirm_child(args.extra.get(1).map(|s| s.as_str()).unwrap_or("null")),
+        _ => {}
+    }
+    if args.replay.is_some() {
+        Run::replay_main(&args, &confirm);
+    }
+    let mut run = Run::new(&args, "mint", "exploration");
+    if let Err(e) = reference_self_check() {
+        run.machinery_failure(&e);
+    }
+
+    // ---- pass 1: the enumeration, in this (release) build
+    let rep = enumerate_all();
+    if let Err(e) = non_vacuity(&rep) {
+        run.machinery_failure(&format!("non-vacuity check failed: {e}"));
+    }
+    for v in violations_json(&rep, "release") {
+        run.violation(Violation::new(v["signature"].as_str().unwrap(), v["summary"].as_str().unwrap(), v["replay"].clone()));
+    }
+    let mut evaluations = rep.evaluations;
+    let mut distinct = rep.distinct_nontrivial();
+    let mut exhaustive = true;
+    run.cov("evaluations_enumeration", rep.evaluations);
+    run.cov("per_family_evaluations", json!(rep.per_family));
+    run.cov("per_family_nontrivial", json!(rep.nontrivial));
+    run.cov("skipped_out_of_domain", rep.skipped_out_of_domain);
+    run.cov("skipped_out_of_domain_note", "division by / inverse of a residue that is not coprime to M: not executed, the property only speaks about units");
+    run.cov("skipped_operand_unconstructible", rep.skipped_unconstructible);
+    run.cov("shapes_executed", json!(rep.flags));
+    run.cov("moduli_small", format!("every M in 2..={SMALL_MAX} (all residues, all ordered pairs)"));
+    run.cov("moduli_large", json!(MODULI.iter().filter(|&&m| m > SMALL_MAX).collect::<Vec<_>>()));
+    run.cov("moduli_large_boundary_residues", json!(residues(2147483647)));
+    run.cov("units_checked_small_moduli", rep.per_modulus.iter().filter(|p| p.0 <= SMALL_MAX).map(|p| p.2).sum::<u64>());
+    run.cov("per_modulus_evaluations_first_and_last", json!([rep.per_modulus.first().map(|p| (p.0, p.1)), rep.per_modulus.last().map(|p| (p.0, p.1))]));
+    if !rep.fails.is_empty() {
+        run.cov("failing_cases_per_family", json!(rep.fails.iter().map(|(k, v)| (k.clone(), v.2)).collect::<BTreeMap<_, _>>()));
+    }
+    // samples: VERIF_SEED only rotates which of the recorded cases are printed
+    if !rep.samples.is_empty() {
+        let n = rep.samples.len();
+        for k in 0..12usize {
+            let i = ((run.seed as usize % n) + k * (n / 12).max(1)) % n;
+            run.sample(rep.samples[i].clone());
+        }
+    }
+
+    // ---- thorough: complete inverse tables of the two primes
+    if args.tier == Tier::Thorough {
+        let mut tables = vec![];
+        for m in [998244353u32, 2147483647] {
+            if !is_prime(m) {
+                run.machinery_failure(&format!("{m} is not prime, the inverse table assumes every residue is a unit"));
+            }
+            let t0 = run.elapsed();
+            let (lo, hi) = (1u32, m);
+            let t = match m {
+                998244353 => inverse_table::<998244353>(lo, hi),
+                _ => inverse_table::<2147483647>(lo, hi),
+            };
+            let secs = run.elapsed() - t0;
+            let full = t.lo == 1 && t.hi == m;
+            if let Some((x, s)) = &t.first_fail {
+                let c = Case { x: *x, ..Case::new(Fam::Inv, m) };
+                run.violation(Violation::new(format!("inv_table:{}", c.args()), s.clone(), c.to_json("release")));
+            } else {
+                if t.checked != (t.hi - t.lo) as u64 {
+                    run.machinery_failure(&format!("inverse table of {m}: {} residues checked, {} expected", t.checked, t.hi - t.lo));
+                }
+                // inversion permutes the units, so a complete table sums to 1 + 2 + … + (M-1)
+                if full && t.sum_inverses != (m as u128) * (m as u128 - 1) / 2 {
+                    run.machinery_failure(&format!("inverse table of {m}: the inverses do not sum to M(M-1)/2 although every product was 1"));
+                }
+                if t.not_self_inverse < t.checked - 2 {
+                    run.machinery_failure(&format!("inverse table of {m}: implausibly many self-inverse residues"));
+                }
+            }
+            evaluations += t.checked;
+            distinct += t.not_self_inverse;
+            exhaustive &= full && t.first_fail.is_none();
+            tables.push(json!({
+                "M": t.m, "from": t.lo, "to_exclusive": t.hi, "residues_checked": t.checked, "not_self_inverse": t.not_self_inverse,
+                "complete": full && t.first_fail.is_none(), "holds": t.first_fail.is_none(), "wall_s": (secs * 10.0).round() / 10.0,
+            }));
+        }
+        run.cov("inverse_tables", json!(tables));
+    }
+
+    // ---- pass 2: the same enumeration in the overflow-checking build
+    let bin = match dbg_binary() {
+        Ok(b) => b,
+        Err(e) => run.machinery_failure(&e),
+    };
+    let out = match std::process::Command::new(&bin).args([args.prop.as_str(), "quick", "--dbg-pass"]).output() {
+        Ok(o) => o,
+        Err(e) => run.machinery_failure(&format!("cannot run {}: {e}", bin.display())),
+    };
+    let text = String::from_utf8_lossy(&out.stdout).to_string();
+    let d: Value = match serde_json::from_str(text.trim()) {
+        Ok(v) if out.status.success() => v,
+        _ => run.machinery_failure(&format!("{} --dbg-pass died or printed no JSON (status {:?})", bin.display(), out.status)),
+    };
+    if d["overflow_checks_active"] != true || d["debug_assertions"] != true {
+        run.machinery_failure(&format!("{} was not built with overflow checks and debug assertions", bin.display()));
+    }
+    if let Some(s) = d["non_vacuity_failure"].as_str() {
+        run.machinery_failure(&format!("overflow-checking pass: non-vacuity check failed: {s}"));
+    }
+    let dbg_violations = d["violations"].as_array().cloned().unwrap_or_default();
+    if dbg_violations.is_empty() && !run.has_violations() && d["evaluations"].as_u64() != Some(rep.evaluations) {
+        run.machinery_failure(&format!("the two build profiles enumerated different numbers of cases: release {}, dbg {}", rep.evaluations, d["evaluations"]));
+    }
+    for v in &dbg_violations {
+        // a signature already reported by the release pass is de-duplicated by `Run::violation`
+        run.violation(Violation::new(v["signature"].as_str().unwrap_or("?"), v["summary"].as_str().unwrap_or("?"), v["replay"].clone()));
+    }
+    let mut dcov = d.clone();
+    if let Some(o) = dcov.as_object_mut() {
+        o.remove("violations");
+        o.insert("violations_found".into(), json!(dbg_violations.len()));
+        o.insert("binary".into(), json!(bin.display().to_string()));
+    }
+    run.cov("overflow_checking_pass", dcov);
+
+    run.cov("evaluations", evaluations);
+    run.cov("distinct_nontrivial", distinct);
+    run.cov("exhaustive", exhaustive);
+    run.cov(
+        "exhaustive_scope",
+        "complete for the stated finite space: every residue / ordered residue pair of every M in 2..=64; for the 7 large moduli the stated boundary sets only (not all residues), except the complete inverse tables of the thorough tier",
+    );
+    run.cov(
+        "rule",
+        "per modulus (70 const-generic instantiations): new/read/eq_new on every v in [-3M,3M] ∪ B (large M: r+kM for boundary residues r, |k|<=3, ∪ B; B reaches i64::MIN/MAX); \
+         neg, inv, Display, Debug, Writer output on every residue; ==, + - * / and += -= *= /= on every ordered residue pair (large M: boundary residues); pow on every (x, e), e in 0..=2M ∪ E (E reaches u64::MAX); \
+         all compared with i128 reference arithmetic; / and inv only for gcd(y,M)=1 (others counted in skipped_out_of_domain). \
+         Cases are distinct by construction (de-duplicated argument sets). Non-trivial = the reduction had something to do: new/read/eq_new with v outside [0,M); add with x+y>=M; sub with x<y; mul with x*y>=M; \
+         neg of non-zero; inv of a unit > 1; div by a unit > 1 with x != 0; pow with x>=2 and e>=2; rendering of a representative with >= 2 digits; inverse table entries with inv(x) != x. \
+         distinct_nontrivial is the measured number of such cases in the release pass.",
+    );
+    run.assume("a value with representative r can only be built through Modular::new(r) (fields are private); every r used as an operand is itself a `new` case, so a wrong constructor is reported under `new` and the dependent cases are counted in skipped_operand_unconstructible");
+    run.assume("0^0 = 1 (empty product), as for Rust's integer pow");
+    run.finish(&confirm)
+}
